@@ -84,6 +84,7 @@ CLAUSE_OWNER = {
     "stray_data_ack": {"C06", "C20"},
     "ep0_in_resp": {"C07"}, "ep0_out_resp": {"C07"},
     "addr_obs": {"C08"}, "cfg_obs": {"C08"}, "resp_foreign_addr": {"C08", "C20"},
+    "ep_toggle": {"C10", "C07", "C08"},      # another endpoint's data toggle moved by a STALLed request / foreign traffic
     "unsup_resp": {"C10", "C07"}, "unsup_state": {"C10"},       # the stage protocol also binds unsupported requests
     "pkt_multi": {"C20"}, "pkt_malformed": {"C20"}, "resp_overlap": {"C20"}, "resp_early": {"C20"},
     "resp_late": {"C20"}, "unsolicited": {"C20"}, "ep_resp": {"C20"},
@@ -92,11 +93,10 @@ CLAUSE_OWNER = {
 ENV_CLAUSES = ("env_illegal", "env_crc_flag")
 
 # SetupTable rows of MCUsb2Ctl.tla each property's exhaustive run uses (quick tier); thorough = all rows
-MC_ROWS = {"C06": [1, 3, 5, 10, 15], "C07": [1, 2, 4, 8, 9, 10], "C08": [2, 3, 4, 10, 13, 14],
-           "C10": [2, 3, 5, 7, 8, 9, 11, 12], "C20": [1, 3, 7, 8, 10]}
+MC_ROWS = {"C06": [1, 3, 5, 15], "C07": [1, 2, 8, 10], "C08": [2, 3, 4, 13], "C10": [2, 7, 8, 11, 12], "C20": [1, 3, 7, 8]}
 ALL_ROWS = list(range(1, 16))
-MC_UNCOVERED = {"C06": ("ACommitCfg",), "C07": ("ACommitAddr",), "C08": (), "C10": ("ACommitCfg", "AAckStatus"),
-                "C20": ("ACommitCfg",)}
+MC_UNCOVERED = {"C06": ("ACommitCfg", "AAckStatus"), "C07": ("ACommitAddr", "ACommitCfg"), "C08": ("AAckStatus",),
+                "C10": ("ACommitAddr", "ACommitCfg", "AAckStatus"), "C20": ("ACommitCfg", "AAckStatus")}
 
 
 class _Phase:
@@ -143,6 +143,7 @@ def dat(pid, payload, **kw):
 
 
 ACK = {"a": "hs", "pid": "ACK"}
+FACK = {"a": "hs", "pid": "ACK", "if_data": False}      # the host's ACK of another device's data (after a foreign IN token)
 
 
 def classify_setup(s8):
@@ -163,6 +164,11 @@ def classify_setup(s8):
     if req == 1 and not (rc == 2 and val == 0):
         return "unsup"
     return "sup"
+
+
+ALL_NOISE = ["foreign_in", "foreign_in_ack", "foreign_in_ack", "foreign_out", "foreign_setup", "sof", "junk", "badtok",
+             "bulk_in", "bulk_in", "bulk_in_noack", "bulk_out", "bulk_out_bad", "none_ep", "long_bad", "src"]
+NO_FOREIGN_ACK = [k for k in ALL_NOISE if k != "foreign_in_ack"]
 
 
 class Gen:
@@ -227,9 +233,10 @@ class Gen:
     def noise(self, kinds=None):
         """One packet / transaction that is not part of a control transfer of this device."""
         r = self.rng
-        k = r.choice(kinds or ["foreign_in", "foreign_out", "foreign_setup", "sof", "junk", "badtok", "bulk_in",
-                               "bulk_in_noack", "bulk_out", "bulk_out_bad", "none_ep", "long_bad", "src"])
-        if k == "foreign_in":
+        k = r.choice(kinds or ALL_NOISE)
+        if k == "foreign_in_ack":
+            self.emit(tok("IN", self.other_addr(), r.randrange(16)), dict(FACK))
+        elif k == "foreign_in":
             self.emit(tok("IN", self.other_addr(), r.randrange(16)))
         elif k == "foreign_out":
             self.emit(tok("OUT", self.other_addr(), r.randrange(16)),
@@ -324,12 +331,6 @@ class Gen:
         cls = classify_setup(s8)
         d_in, ln = s8[0] >> 7, s8[6] | s8[7] << 8
 
-        if (s8[0] >> 5) & 3 == 0 and s8[1] in (1, 5, 9):
-            # (carve-outs C08 / C08c) no ACK of another endpoint's data while such a request is pending
-            noise_kinds = [k for k in (noise_kinds or ["foreign_in", "foreign_out", "foreign_setup", "sof", "junk",
-                                                       "bulk_in_noack", "bulk_out", "bulk_out_bad", "none_ep",
-                                                       "long_bad", "src"]) if k != "bulk_in"]
-
         def maybe_noise():
             while noise and r.random() < noise:
                 self.noise(noise_kinds)
@@ -347,8 +348,8 @@ class Gen:
             for i in range(n):
                 if lose_ack and r.random() < lose_ack:
                     self.in0(ack=False)          # our ACK got lost: the device must send the packet again
-                    while noise and r.random() < noise:     # (carve-out C07b: no foreign ACK before the retry)
-                        self.noise(["foreign_in", "foreign_out", "sof", "junk", "bulk_in_noack", "bulk_out", "none_ep"])
+                    while noise and r.random() < noise:     # (carve-out FA: no foreign-address ACK before the retry)
+                        self.noise(NO_FOREIGN_ACK)
                 self.in0()
                 maybe_noise()
                 if stop == "data":
@@ -369,15 +370,12 @@ class Gen:
             if cls == "sup":
                 while lose_ack and r.random() < lose_ack:
                     self.in0(ack=False)          # status ZLP seen, ACK lost: the host asks again
-                    maybe_noise()
+                    while noise and r.random() < noise:     # (carve-out FA)
+                        self.noise(NO_FOREIGN_ACK)
                 if stop == "status_noack":
                     self.in0(ack=False)
                     return
             self.in0()
-            if cls == "unsup" and s8[1] == 1 and (s8[0] >> 5) & 3 == 0:
-                # (carve-out C07) a STALLed CLEAR_FEATURE leaves the standard handler in its state: whatever
-                # standard request follows is mishandled, so a clean behaviour ends here
-                self.tainted = True
             if cls == "sup" and s8[1] == 5:
                 old, self.addr = self.addr, s8[2] & 0x7F
                 if r.random() < 0.7:             # probe both addresses
@@ -399,17 +397,23 @@ def gen_clean(rng, prop, desc_len, max0, n_transfers):
     if r.random() < 0.6:
         g.emit({"a": "src", "en": 1})
         g.src_on = True
-    noise = {"C06": 0.35, "C07": 0.35, "C08": 0.3, "C10": 0.15, "C20": 0.5}[prop]
+    noise = {"C06": 0.35, "C07": 0.35, "C08": 0.3, "C10": 0.2, "C20": 0.5}[prop]
+
+    def stop_for(s8):
+        """Where an (occasionally impatient) host stops pursuing the transfer."""
+        return r.choice(["done"] * 5 + ["setup", "data", "status_noack"])
+
     for _ in range(n_transfers):
-        if g.tainted:
-            return g.s + [{"a": "idle", "n": 30}]
         x = r.random()
         if prop == "C06" and x < 0.5:
-            # a SETUP that must be refused / is lost, then (after a token that is not a SETUP) a good one
-            how = r.choice(["crc", "short", "long", "tokonly", "trunc", "badtok", "crc"])
+            # a SETUP that must be refused / is lost (sometimes right after an accepted one), then the retry
+            how = r.choice(["crc", "short", "long", "tokonly", "trunc", "trunc", "badtok", "crc"])
             s8 = g.rand_supported() if r.random() < 0.5 else [r.randrange(256) for _ in range(8)]
-            g.setup(s8, how)
-            if how != "badtok":
+            if how == "trunc" and r.random() < 0.6:
+                g.emit(tok("SETUP", g.addr, 0), dat("DATA0", s8, trunc=r.choice([1, 1, 2, 3])))
+            else:
+                g.setup(s8, how)
+            if r.random() < 0.3:
                 g.disarm()
             while r.random() < 0.4:
                 g.noise()
@@ -422,21 +426,17 @@ def gen_clean(rng, prop, desc_len, max0, n_transfers):
         if prop == "C08" and x < 0.55:
             s8 = S(0, 5, r.choice([5, 0x55, 1, 0x7F, r.randrange(128)]), 0, 0) if r.random() < 0.6 else \
                 S(0, 9, r.choice([0, 1, 1, 7, 255]), 0, 0)
-            g.transfer(s8, lose_ack=0.35, noise=noise, noise_kinds=["foreign_in", "foreign_out", "sof", "bulk_in_noack",
-                                                                    "bulk_out", "none_ep", "junk"])
+            g.transfer(s8, stop=stop_for(s8), lose_ack=0.35, noise=noise)
             if r.random() < 0.25:
                 g.reset()
             continue
         if (prop == "C10" and x < 0.8) or x < 0.3:
             s8 = g.rand_unsupported()
-            # abandoning is only "clean" for non-standard types (the standard handler is not involved)
-            stop = r.choice(["done", "done", "setup", "data"]) if (s8[0] >> 5) & 3 else "done"
-            g.transfer(s8, stop=stop, noise=noise)
+            g.transfer(s8, stop=r.choice(["done", "done", "done", "setup", "data"]), noise=noise)
             continue
         if prop in ("C07", "C20") and x < 0.4:
-            # repeated SETUPs / abandoned transfers of non-standard type, host-illegal ep0 tokens in between
-            s8 = g.rand_unsupported()
-            s8[0] = (s8[0] & 0x9F) | (r.choice([1, 2, 3]) << 5)
+            # host-illegal ep0 tokens after a transfer
+            s8 = g.rand_unsupported() if r.random() < 0.5 else g.rand_supported()
             g.transfer(s8, stop=r.choice(["setup", "data", "done"]), noise=noise)
             if r.random() < 0.3:
                 g.emit(tok("IN", g.addr, 0))
@@ -444,14 +444,10 @@ def gen_clean(rng, prop, desc_len, max0, n_transfers):
                 g.emit(tok("OUT", g.addr, 0), dat("DATA1", []))
             continue
         s8 = g.rand_supported()
-        g.transfer(s8, lose_ack=0.2 if prop in ("C07", "C20") else 0.0, noise=noise,
-                   early_status=r.random() < 0.15,
-                   noise_kinds=None if s8[1] not in (1, 5, 9) else ["foreign_in", "foreign_out", "sof", "bulk_in_noack",
-                                                                 "bulk_out", "none_ep", "junk", "long_bad"])
+        g.transfer(s8, stop=stop_for(s8), lose_ack=0.2 if prop in ("C07", "C20") else 0.0, noise=noise,
+                   early_status=r.random() < 0.15)
         if r.random() < 0.08:
             g.reset()
-    if g.tainted:
-        return g.s + [{"a": "idle", "n": 30}]
     return g.s + sanity(g.addr, cfg_probe=r.random() < 0.5)
 
 
@@ -489,7 +485,7 @@ def sanity(addr, cfg_probe=True):
             {"a": "idle", "n": 30}]
 
 
-QUICK_DISTANCES = (2, 3, 4, 5, 6, 7, 8, 10, 12, 16)
+QUICK_DISTANCES = (2, 3, 4, 5, 6, 7, 9, 12, 16)
 
 
 def aligned_scripts(prop, desc_len, max0, distances=QUICK_DISTANCES):
@@ -516,8 +512,16 @@ def aligned_scripts(prop, desc_len, max0, distances=QUICK_DISTANCES):
             x += [tok("IN", a, 0)]
         return x + [tok("IN", a, 0), dict(ACK)]
 
+    far = [tok("IN", 9, 1), dict(FACK)]                    # the host ACKs data of the device at address 9
+    fout = [tok("OUT", 9, 1), dat("DATA0", [1, 2, 3])]       # OUT transaction to address 9
+    bin_ = [tok("IN", 0, 1), dict(ACK)]                      # one bulk IN transaction (observes ep1's toggle)
     sc = {}      # scenario name -> (script, final address)
     if prop == "C06":
+        for n in (1, 2):
+            # a data packet cut off right after its PID / after one byte, directly after an accepted 8-byte SETUP
+            sc["runt-%d-after-good-setup" % n] = (rd(0, GS) + [tok("SETUP", 0, 0), dat("DATA0", GC, trunc=n)] + rd(0, GC), 0)
+            sc["runt-%d-after-vendor-setup" % n] = ([tok("SETUP", 0, 0), dat("DATA0", VN), tok("SETUP", 0, 0),
+                                                    dat("DATA0", GS, trunc=n), tok("IN", 0, 0)], 0)
         sc["read"] = (rd(0, GS), 0)
         sc["bad-crc-then-good"] = ([tok("SETUP", 0, 0), dat("DATA0", GS, ok=False), tok("IN", 0, 3)] + rd(0, GC), 0)
         sc["long-then-good"] = ([tok("SETUP", 0, 0), dat("DATA0", GS + [1]), tok("IN", 0, 3)] + rd(0, GS), 0)
@@ -539,7 +543,15 @@ def aligned_scripts(prop, desc_len, max0, distances=QUICK_DISTANCES):
                                        tok("IN", 0, 0), dict(ACK)], 0)
         sc["status-retry"] = ([tok("SETUP", 0, 0), dat("DATA0", GS), tok("IN", 0, 0), dict(ACK), tok("OUT", 0, 0),
                                dat("DATA1", [], ok=False), tok("OUT", 0, 0), dat("DATA1", [])], 0)
+    if prop == "C07":
+        sc["foreign-address-traffic"] = ([on] + bin_ + [tok("SETUP", 0, 0), dat("DATA0", GD)] + far + fout
+                                         + [tok("IN", 0, 0), dict(ACK)] * n_dev + far + [tok("OUT", 0, 0), dat("DATA1", [])]
+                                         + far + bin_, 0)
     if prop == "C08":
+        for nm, s8, a_new in (("address", SA, 5), ("config", SC, 0), ("clear-halt", CH, 0)):
+            sc["foreign-address-ack-around-set-%s" % nm] = (
+                [on] + bin_ + far + [tok("SETUP", 0, 0), dat("DATA0", s8)] + far + fout + [tok("IN", 0, 0), dict(ACK)] + far
+                + [tok("IN", a_new, 1), dict(ACK)], a_new)
         sc["set-address"] = (wr(0, SA) + [tok("IN", 0, 3), tok("IN", 5, 3)], 5)
         sc["set-address-ack-lost"] = (wr(0, SA, ack_lost=True) + [tok("IN", 0, 3), tok("IN", 5, 3)], 5)
         sc["set-config"] = (wr(0, SC), 0)
@@ -555,6 +567,14 @@ def aligned_scripts(prop, desc_len, max0, distances=QUICK_DISTANCES):
         sc["std-unimplemented"] = ([tok("SETUP", 0, 0), dat("DATA0", S(0x81, 10, 0, 0, 1)), tok("IN", 0, 0)], 0)
         sc["clear-feature-device"] = ([on, tok("SETUP", 0, 0), dat("DATA0", S(0, 1, 1, 0, 0)), tok("IN", 0, 0), tok("IN", 0, 1),
                                        dict(ACK), tok("IN", 0, 0)], None)      # (no sanity: see finding C07)
+        for i, s8 in enumerate((S(0, 1, 1, 0x81, 0), S(1, 1, 0, 0x81, 0), S(2, 1, 1, 0x81, 0), S(0x40, 1, 0, 0x81, 0),
+                                S(0, 3, 0, 0x81, 0))):
+            # a STALLed request naming ep1 IN, then ACKs / data that belong to another device address: ep1's toggle,
+            # the address and the configuration must be what they were
+            sc["stalled-%d-then-foreign-address-ack" % i] = (
+                [on] + bin_ + [tok("SETUP", 0, 0), dat("DATA0", s8), tok("IN", 0, 0)] + far + fout + far + bin_ + bin_, 0)
+            sc["foreign-address-ack-before-stall-%d" % i] = (
+                [on] + bin_ + [tok("SETUP", 0, 0), dat("DATA0", s8)] + far + [tok("IN", 0, 0)] + bin_, 0)
         sc["early-status"] = ([tok("SETUP", 0, 0), dat("DATA0", VI), tok("OUT", 0, 0), dat("DATA1", [])], 0)
     if prop == "C20":
         sc["read"] = (rd(0, GS), 0)
@@ -563,6 +583,12 @@ def aligned_scripts(prop, desc_len, max0, distances=QUICK_DISTANCES):
         sc["source-starts"] = ([tok("SETUP", 0, 0), dat("DATA0", GS), on, tok("IN", 0, 0), dict(ACK), tok("IN", 0, 1), dict(ACK),
                                 tok("OUT", 0, 0), dat("DATA1", [])], 0)
         sc["vendor-stall"] = ([tok("SETUP", 0, 0), dat("DATA0", VI), tok("IN", 0, 0)], 0)
+        # the bulk IN endpoint ends a transfer of exactly k x MaxPkt with a zero-length packet; then other zero-length
+        # packets (status stages, a re-sent ZLP) follow before ep1 has anything else to say
+        to_zlp = [on] + bin_ * 3          # 5 bytes, 8 bytes, ZLP
+        sc["zlp-then-status-zlp"] = (to_zlp + wr(0, SC) + wr(0, CH) + bin_, 0)
+        sc["zlp-then-set-address"] = (to_zlp + wr(0, SA, ack_lost=True) + [tok("IN", 5, 1), dict(ACK)], 5)
+        sc["zlp-resent-then-status"] = ([on] + bin_ * 2 + [tok("IN", 0, 1)] + bin_ + wr(0, SC) + rd(0, GS), 0)
     out = []
     for name, (body, a_end) in sc.items():
         for d in distances:
@@ -576,6 +602,8 @@ def aligned_scripts(prop, desc_len, max0, distances=QUICK_DISTANCES):
                   ("stall", [tok("SETUP", 0, 0), dat("DATA0", VI), tok("IN", 0, 0)], 2, 1)]
         if prop == "C20":
             shapes.append(("bulk-in", [on, tok("IN", 0, 1), dict(ACK)], 1, 8))
+            shapes.append(("status-zlp-after-bulk-zlp", [on] + [tok("IN", 0, 1), dict(ACK)] * 3
+                           + [tok("SETUP", 0, 0), dat("DATA0", SC), tok("IN", 0, 0), dict(ACK)], 9, 3))
         for name, body, at, n in shapes:
             plans = [{k: c} for k in range(n) for c in (1, 2)]
             if n >= 3:
@@ -845,7 +873,7 @@ def run_device(rep, prop, with_witness=True):
         label = "USBDevice(ep0 max %d%s)" % (max0, ", avoid_blockram" if avoid_bram else "")
         items = []
         stress = prop == "C20"
-        sims = simulated_scripts(rep, prop, b, max0, (30 if quick else 150) if max0 == 64 else (12 if quick else 50),
+        sims = simulated_scripts(rep, prop, b, max0, (20 if quick else 150) if max0 == 64 else (10 if quick else 50),
                                  25 if quick else 40)
         with _Phase(rep, "pysim %s" % label):
             # (a) spec -> code
@@ -856,7 +884,7 @@ def run_device(rep, prop, with_witness=True):
                                 gap_prob=0.2 if stress else 0.0, stall_prob=0.3 if stress and i % 3 else 0.0)
                 items.append((tr, {"dut": label, "origin": "tlc-simulate", "n": i}))
             # (b) code -> spec: structured random host behaviours beyond the model's alphabet
-            n_rand = (30 if quick else 200) if max0 == 64 else (15 if quick else 80)
+            n_rand = (24 if quick else 200) if max0 == 64 else (12 if quick else 80)
             for i in range(n_rand):
                 sc = gen_clean(rng, prop, desc_len, max0, rng.randint(2, 6))
                 tr = runner.run(sc, gap_prob=rng.choice([0.0, 0.0, 0.3]) if not stress else rng.choice([0.0, 0.3, 0.6]),
@@ -912,6 +940,10 @@ def unit_decoder(rep, prop="C06"):
         for wname, sc in witness_scripts("C06", {}):
             tr = runner.run(sc)
             items.append((tr, {"dut": label, "origin": "witness", "witness": wname}))
+        for cname, sc in aligned_scripts("C06", {}, 64, (2, 5, 11)):
+            if cname.startswith(("runt-", "bad-crc", "back-to-back", "setup-data gap")):
+                tr = runner.run(sc)
+                items.append((tr, {"dut": label, "origin": "aligned", "case": cname}))
         judge(rep, prop, items, cfg, label)
         rep.sample({"dut": label, "first_records": _brief(items[0][0][:4])})
 
